@@ -44,7 +44,7 @@ def gen_cfg(rng):
         'secure': rng.random() < 0.3,
         'include_ip': rng.random() < 0.4,
         'timeout': rng.choice([None, None, 10, 1200, 1, 0, 86400]) if rng.random() < 0.97 else -5,
-        'reissue_time': rng.choice([None, None, 0, 3, 120, 100000]),
+        'reissue_time': rng.choice([None, 0, 3, 120, 100000]),
         'max_age': rng.choice([None, None, 77, 0, 31536000]),
         'http_only': rng.random() < 0.3,
         'path': rng.choice(['/', '/', '/app', '/a/b']),
@@ -245,7 +245,7 @@ def gen_case(rng):
     if to:
         choices += [('timeout-1', t0 + to - 1), ('timeout+0', t0 + to), ('timeout+1', t0 + to + 1)] * 2
     if rt is not None:
-        choices += [('reissue-1', t0 + rt - 1), ('reissue+0', t0 + rt), ('reissue+1', t0 + rt + 1)] * 2
+        choices += [('reissue-1', t0 + rt - 1), ('reissue+0', t0 + rt), ('reissue+1', t0 + rt + 1)] * 3
     clock, now = rng.choice(choices)
     now = max(0, now)
     case = {'cfg': cfg, 'req': {'cookie': cookie, 'ip': ip, 'host': host, 'now': now}, 'ops': gen_ops(rng),
